@@ -298,3 +298,141 @@ func c01Plan(o *vh.Oracle, r *vh.Result, rng *vh.Rand, n int) error {
 	}
 	return nil
 }
+
+// c01SelfSeed compares selfSeed.add / getChunk (through VerifSelfSeed) with Model/SelfSeed.v on
+// generated indexes and add orders (segments of a tiling added in random order, with duplicates
+// and overlapping/foreign segments thrown in), and checks on the implementation alone what
+// selfseed_sound proves of the model: an offered row has the id, is the least such row, and lies
+// in a segment that was added.
+type c01SelfCase struct {
+	IDs     []int    `json:"ids"`
+	Adds    [][2]int `json:"adds"`
+	Queries []int    `json:"queries"`
+	Impl    string   `json:"impl,omitempty"`
+	Model   string   `json:"model,omitempty"`
+}
+
+func c01SelfSeedOne(o *vh.Oracle, r *vh.Result, c *c01SelfCase) error {
+	sizes := make([]uint64, len(c.IDs))
+	for i := range sizes {
+		sizes[i] = 8
+	}
+	rows, _ := c01Rows(c.IDs, sizes)
+	idx := desync.Index{Chunks: rows}
+	var qs []desync.ChunkID
+	for _, q := range c.Queries {
+		qs = append(qs, c01ID(q))
+	}
+	written, got := desync.VerifSelfSeed(idx, c.Adds, qs)
+	var parts []string
+	for k := range c.Adds {
+		var rs []string
+		for qi, row := range got[k] {
+			rs = append(rs, fmt.Sprint(row))
+			if row >= 0 {
+				covered := false
+				for _, a := range c.Adds[:k+1] {
+					if a[0] <= row && row <= a[1] {
+						covered = true
+					}
+				}
+				least := true
+				for i := 0; i < row; i++ {
+					if c.IDs[i] == c.Queries[qi] {
+						least = false
+					}
+				}
+				switch {
+				case row >= len(c.IDs) || c.IDs[row] != c.Queries[qi]:
+					r.Fail("predicate", "selfseed/wrong-id", fmt.Sprintf("after add %d the self seed offers row %d for id %d", k, row, c.Queries[qi]), c)
+					return nil
+				case !covered:
+					r.Fail("predicate", "selfseed/row-not-written", fmt.Sprintf("after add %d the self seed offers row %d, which lies in no segment added so far", k, row), c)
+					return nil
+				case !least:
+					r.Fail("predicate", "selfseed/not-first-row", fmt.Sprintf("after add %d the self seed offers row %d although an earlier row has the id", k, row), c)
+					return nil
+				}
+			} else if row == -2 {
+				r.Fail("predicate", "selfseed/segment-mismatch", "getChunk's segment is not the row recorded in pos", c)
+				return nil
+			}
+		}
+		parts = append(parts, fmt.Sprintf("%d;%s", written[k], strings.Join(rs, ",")))
+	}
+	c.Impl = strings.Join(parts, "|")
+	if c.Impl == "" {
+		c.Impl = "-"
+	}
+	r.Count(fmt.Sprintf("selfseed|%v|%v", c.IDs, c.Adds), len(c.Adds) > 1)
+	r.Dist(fmt.Sprintf("selfseed/adds~%d", c01Bucket(len(c.Adds))))
+	if o != nil {
+		join := func(l []string) string {
+			if len(l) == 0 {
+				return "-"
+			}
+			return strings.Join(l, ",")
+		}
+		var ids, adds, qq []string
+		for _, i := range c.IDs {
+			ids = append(ids, fmt.Sprint(i))
+		}
+		for _, a := range c.Adds {
+			adds = append(adds, fmt.Sprintf("%d:%d", a[0], a[1]))
+		}
+		for _, q := range c.Queries {
+			qq = append(qq, fmt.Sprint(q))
+		}
+		ans, err := o.Call("c01.selfseed", join(ids), join(adds), join(qq))
+		if err != nil {
+			return err
+		}
+		r.Corr()
+		c.Model = ans
+		if ans != c.Impl {
+			r.Fail("corr", "corr:C01/selfseed", "selfSeed.add/getChunk and Model/SelfSeed.v differ", c)
+		}
+	}
+	return nil
+}
+
+func c01SelfSeed(o *vh.Oracle, r *vh.Result, rng *vh.Rand, n int) error {
+	for k := 0; k < n; k++ {
+		var c c01SelfCase
+		m := 1 + rng.Intn(30)
+		alphabet := 1 + rng.Intn(6)
+		for i := 0; i < m; i++ {
+			c.IDs = append(c.IDs, rng.Intn(alphabet))
+		}
+		// a tiling of the rows, shuffled; sometimes a segment twice, or left out
+		var segs [][2]int
+		for f := 0; f < m; {
+			l := f + rng.Intn(4)
+			if l >= m {
+				l = m - 1
+			}
+			segs = append(segs, [2]int{f, l})
+			f = l + 1
+		}
+		for i := len(segs) - 1; i > 0; i-- {
+			j := rng.Intn(i + 1)
+			segs[i], segs[j] = segs[j], segs[i]
+		}
+		for _, s := range segs {
+			if rng.Chance(1, 12) {
+				continue
+			}
+			c.Adds = append(c.Adds, s)
+			if rng.Chance(1, 10) {
+				c.Adds = append(c.Adds, s)
+			}
+		}
+		for q := 0; q <= alphabet; q++ {
+			c.Queries = append(c.Queries, q)
+		}
+		if err := c01SelfSeedOne(o, r, &c); err != nil {
+			return err
+		}
+	}
+	return nil
+}
